@@ -22,6 +22,7 @@ THROWING = set()
 DROPS = ['region ctor_phases: three statements of runConstructorChain in their source order - the `if (cls->base)` block (choice of the base constructor and the recursive call), the runFieldInitialisers(cls, obj) call and the `if (ctor && ctor->body)` body loop; '
          'what lies between them (tracing to std::cerr, the parameter-to-field copy of `= default` constructors) is dropped; constructors of a class are rows {decl, params}; argumentsConversionCost is an uninterpreted function',
          'region member_dispatch: in the member-call branch of RuntimeEvaluator::eval, the then-branch of `if (target.type == Value::Type::Object && target.objectValue)` (which method runs for obj.m(...) / super.m(...)); findClass / findMethod / the vtable lookup are uninterpreted functions, methods are rows of a method table',
+         'region member_dispatch_super: the branch that follows it, `else if (target.type == Value::Type::ClassRef && target.classRef)` (Name.m(...) and super.m(...): eval(SuperExpression) yields a reference to the base class); currentThisObject() is a ghost object id',
          'region exec_block: the BlockStatement branch of RuntimeEvaluator::exec (`block` becomes an opaque body identity; exec of the nested statements is the ghost-recording model)',
          'region dtor_walk: the for statement over the class chain inside `if (runUserDestructor && obj->cls)` of destroyObject; `obj`, `runUserDestructor` and the evaluator state become parameters / file-level variables',
          'classes are indices into a class table {base, destructorDecl, name} (0 = null); a declaration and its body are opaque identities; the statements of a body are (body, index) pairs',
@@ -78,7 +79,7 @@ class Profile(Lower):
 
     def file_prelude(self):
         return ['enum { %s };' % ', '.join('BL_' + e for e in self.tagenum),
-                'typedef struct { int type; bl_cname className; bl_objid objectValue; } Value;',
+                'typedef struct { int type; bl_cname className; bl_objid objectValue; bl_clsid classRef; } Value;',
                 'typedef struct { Value value; _Bool tracked; _Bool initialized; } VarEntry;']
 
     def declref(self, n):
@@ -143,7 +144,7 @@ class Profile(Lower):
             if sb.get('kind') == 'DeclRefExpr' and sb['referencedDecl']['name'] == getattr(self, 'ctx', None):
                 return 'BODY_STMTS(%s)' % self.ctx
             return 'BODY_STMTS(%s)' % self.expr(sb)
-        if bt == 'Value' and nm in ('type', 'className', 'objectValue'):
+        if bt == 'Value' and nm in ('type', 'className', 'objectValue', 'classRef'):
             return '(%s).%s' % (self.expr(sb), nm)
         raise Unsupported('member %s of %s' % (nm, qt(sb)))
 
@@ -195,6 +196,8 @@ class Profile(Lower):
         if so.get('kind') == 'CXXThisExpr' and name == 'runFieldInitialisers' and len(args) == 2:
             self.needs_prop = True
             return 'objm_runFieldInitialisers(%s, %s)' % (self.expr(args[0]), self.expr(args[1]))
+        if so.get('kind') == 'CXXThisExpr' and name == 'currentThisObject' and not args:
+            return 'objm_currentThisObject()'
         if so.get('kind') == 'CXXThisExpr' and name == 'findClass' and len(args) == 1:
             return 'objm_findClass(%s)' % self.expr(args[0])
         if so.get('kind') == 'CXXThisExpr' and name == 'findMethod' and len(args) == 3:
@@ -436,10 +439,36 @@ def lower_regions(docs, prof):
         prof.ctx = None
         out.append((hd, l3))
     except Unsupported as e:
+        prof.ctx = None
         if not hasattr(prof, 'region_unlowered'):
             prof.region_unlowered = {}
         prof.region_unlowered['member_dispatch'] = str(e)
         out.append((hd, None))
+        tgt = None
+    # ... and for C.m(...) / super.m(...) (the target evaluates to a class reference): the branch that follows it
+    hs = 'void objm_member_dispatch_super(Value target, _Bool viaSuper, bl_cname member_member)'
+    try:
+        if tgt is None:
+            raise Unsupported('member_dispatch_super: the object branch it follows was not found')
+        els = kids(tgt)[2] if len(kids(tgt)) > 2 else None
+        if not els or els.get('kind') != 'IfStmt':
+            raise Unsupported('member_dispatch_super: no else-if after the object branch')
+        cr = []
+        walk(kids(els)[0], lambda z: cr.append(z.get('name')) if z.get('kind') == 'MemberExpr' else None)
+        if 'classRef' not in cr or 'objectValue' in cr:
+            raise Unsupported('member_dispatch_super: the branch after the object branch no longer tests target.classRef')
+        prof.ctx = 'member'
+        prof.locals |= {'target', 'viaSuper', 'member', 'args', 'method', 'staticCls', 'receiver'}
+        d5 = dict(kind='FunctionDecl', name='member_dispatch_super', type=dict(qualType='void ()'), inner=[kids(els)[1]])
+        h5, l5 = prof.func(d5, cname='member_dispatch_super', is_method=False)
+        prof.ctx = None
+        out.append((hs, l5))
+    except Unsupported as e:
+        prof.ctx = None
+        if not hasattr(prof, 'region_unlowered'):
+            prof.region_unlowered = {}
+        prof.region_unlowered['member_dispatch_super'] = str(e)
+        out.append((hs, None))
     return out
 
 
@@ -507,6 +536,8 @@ static inline bl_clsid objm_findClass(bl_cname n) { return CLS_OF_NAME(n); }
 static inline bl_mth objm_findMethod(bl_clsid c, bl_cname n) { return METHOD_OF(c, n); }
 static inline bl_mth objm_vtable_find(bl_clsid c, bl_cname sig) { return VT(c, sig); }
 #endif
+bl_objid g_cur_this;      /* what currentThisObject() returns: the object the running method was called on */
+static inline bl_objid objm_currentThisObject(void) { return g_cur_this; }
 #define DYN_CLS OBJ_CLS(target.objectValue)
 #define STATIC_CLS ((target.className != 0 && CLS_OF_NAME(target.className) != 0) ? CLS_OF_NAME(target.className) : DYN_CLS)
 #define FOUND METHOD_OF(STATIC_CLS, member_member)
@@ -664,6 +695,17 @@ CONTRACTS['member_dispatch'] = {
         E('eval.member_call.super_call_runs_the_base_version', '(viaSuper && STATIC_CLS != 0 && g_cls[STATIC_CLS].base != 0) ==> (method == METHOD_OF(g_cls[STATIC_CLS].base, member_member) && staticCls == g_cls[STATIC_CLS].base)', ['C08']),
     ],
 }
+CONTRACTS['member_dispatch_super'] = {
+    'contract': [
+        # eval(SuperExpression) yields a reference to the base of the running method's class; Name.m(...) one to the named class
+        R('bl_exc == 0 && target.classRef > 0 && target.classRef < CMAX && TABLE_OK && receiver == 0 && g_cur_this != 0'),
+        A('method, staticCls, receiver'),
+        E('eval.member_call.class_qualified_call_runs_that_classes_version', 'method == METHOD_OF(target.classRef, member_member) && staticCls == target.classRef', ['C08']),
+        # C08: "super.m() runs the base version" - of the SAME object: the base method's `this` is the object the running method was called on
+        E('eval.member_call.super_call_keeps_the_receiver', 'viaSuper ==> receiver == g_cur_this', ['C08']),
+        E('eval.member_call.static_call_has_no_receiver', '!viaSuper ==> receiver == 0', ['C08']),
+    ],
+}
 CONTRACTS['exec_for'] = {
     'contract': [
         R('bl_exc == 0 && g_depth < 1000000 && g_begins == 0 && g_ends == 0 && g_pclock == 0 && g_exec_n == 0'),
@@ -683,6 +725,8 @@ HARNESSES = [
          canaries=[('bl_exc == 0 && g_n_base == 1 && g_exec_n > 0', 'base chain, fields and body all ran'), ('bl_exc != 0', 'construction failed')]),
     dict(name='member_dispatch', fn='member_dispatch', replace=[], flags=[], props=['C08', 'C12'], timeout=300,
          canaries=[('method != 0 && !a1', 'a method was selected'), ('a1', 'super call')]),
+    dict(name='member_dispatch_super', fn='member_dispatch_super', replace=[], flags=[], props=['C08', 'C12'], timeout=300,
+         canaries=[('a1', 'super call'), ('!a1', 'class-qualified call')]),
     dict(name='exec_block', fn='exec_block', replace=[], flags=[], props=['C09', 'C17', 'C12'], timeout=300, unwind=5,
          canaries=[('ev_m_hasReturn', 'a nested statement returned'), ('!ev_m_hasReturn', 'ran to the end')]),
     dict(name='dtor_walk', fn='dtor_walk', replace=[], flags=[], props=['C08', 'C09', 'C12'], timeout=600, unwind=5,
